@@ -31,12 +31,15 @@ def run(tier, seed, t0):
     m = Merged(); wd = R.workdir("C02")
     n = T(tier, 300, 100000)
     na = T(tier, 30, 3000)
-    R.run_inv(Inv("forces", n, "plain", timeout=T(tier, 600, 7200)), seed, wd, m)
+    # (cells are never freed by the repository - faces hold a shared pointer to their cell - so the thorough tier runs in slices)
+    for k0 in range(0, n, 20000):
+        R.run_inv(Inv("forces", min(20000, n - k0), "plain", timeout=T(tier, 600, 7200), first=k0, tag="forces/plain/c1d0" if n <= 20000 else "forces/plain/c1d0/slice%d" % (k0 // 20000)), seed, wd, m)
     R.run_inv(Inv("forces", na, "asan", timeout=T(tier, 900, 7200), first=n), seed, wd, m)
     # cells with a history (collapsed/split edges, unused slots, nodes moved since the last geometry refresh) against fresh cells over the same mesh
     nh = T(tier, 400, 100000)
-    R.run_inv(Inv("forces_hist", nh, "plain", timeout=T(tier, 900, 7200), tag="forces_hist/plain"), seed, wd, m)
-    R.run_inv(Inv("forces_hist", T(tier, 40, 4000), "asan", timeout=T(tier, 900, 7200), first=nh, tag="forces_hist/asan"), seed, wd, m)
+    for k0 in range(0, nh, 25000):
+        R.run_inv(Inv("forces_hist", min(25000, nh - k0), "plain", timeout=T(tier, 900, 7200), first=6000000 + k0, tag="forces_hist/plain" if nh <= 25000 else "forces_hist/plain/slice%d" % (k0 // 25000)), seed, wd, m)
+    R.run_inv(Inv("forces_hist", T(tier, 40, 4000), "asan", timeout=T(tier, 900, 7200), first=6000000 + nh, tag="forces_hist/asan"), seed, wd, m)
     # many cells evaluated concurrently (as the solver's parallel loop does) against the same cells one after another
     npar = T(tier, 16, 2000)
     R.run_inv(Inv("forces_par", npar, "plain", threads=8, shards=2, timeout=T(tier, 900, 7200), tag="forces_par/plain/t8"), seed, wd, m)
